@@ -298,6 +298,7 @@ def check_value(rec, L, S, d, v, key_prefix, fn, args, devs):
     what = f'{name} with deviations {devs}' if devs else f'{name} (default value)'
     # serialize, boxed
     rec.trans()
+    snapshot = repr(v)
     try:
         got = L.serialize(sch, v, boxed=True)
     except Exception as e:
@@ -311,7 +312,15 @@ def check_value(rec, L, S, d, v, key_prefix, fn, args, devs):
                       f'{want[:48].hex()}... ({len(want)} B)', fn, args)
         rec.outcome('bytes differ')
         return
+    if repr(v) != snapshot:
+        rec.violation(f'{key_prefix}serialize-mutates-input', f'{what}: serialize changed the caller\'s value', fn, args)
+        return
     rec.trans()
+    try:
+        if L.serialize(sch, v, boxed=True) != got:
+            rec.violation(f'{key_prefix}serialize-not-repeatable', f'{what}: serialising the same value twice gives different bytes', fn, args)
+    except Exception as e:
+        rec.violation(f'{key_prefix}serialize-not-repeatable', f'{what}: second serialize raised {exc_name(e)}: {e}', fn, args)
     try:
         bare = L.serialize(sch, v, boxed=False)
         if bare != want[4:]:
@@ -331,6 +340,12 @@ def check_value(rec, L, S, d, v, key_prefix, fn, args, devs):
         rec.violation(f'{key_prefix}deserialize-raises:{kind}', f'{what}: deserialize of the reference encoding raised {exc_name(e)}: {e}', fn, args)
         rec.outcome('deserialize raised')
         return
+    try:
+        again = L.deserialize(bytes(want))
+        if repr(again) != repr((back, used)):
+            rec.violation(f'{key_prefix}deserialize-not-repeatable', f'{what}: parsing the same bytes twice gives different results', fn, args)
+    except Exception as e:
+        rec.violation(f'{key_prefix}deserialize-not-repeatable', f'{what}: second deserialize raised {exc_name(e)}: {e}', fn, args)
     if used != len(want):
         rec.violation(f'{key_prefix}deserialize-consumed:{diff_kind(S, d, v, None, want)}', f'{what}: deserialize consumed {used} of {len(want)} bytes', fn, args)
         rec.outcome('consumed differs')
